@@ -9,6 +9,7 @@ import NemoVerif.Lemmas.ConflictLink
 import NemoVerif.Lemmas.ConflictPhaseVM
 import NemoVerif.Lemmas.ConflictChain
 import NemoVerif.Lemmas.ConflictOrderVM
+import NemoVerif.Lemmas.ConflictGroupVM
 import NemoVerif.Models.Match
 namespace NemoVerif.C05
 open NemoVerif.Conflict List
@@ -623,6 +624,27 @@ theorem more_specific_wins_vm (scoresOf : Key → List CoreVM.Score) (group : Li
 example : vmTies (fun k => if k = ("f1", "h1") then [⟨1, none⟩] else [⟨1, none⟩, ⟨0, some (1, 1)⟩]) [("f2", "h2"), ("f1", "h1")] = 1 ∧
     vmPicked (fun k => if k = ("f1", "h1") then [⟨1, none⟩] else [⟨1, none⟩, ⟨0, some (1, 1)⟩]) [("f2", "h2"), ("f1", "h1")] 0 = ("f1", "h1") := by
   decide
+
+
+/-- `loops_independent`, grouping half, on CoreVM: `resolveActionConflicts` on two or more heads IS `groupHeads` (the `head_groups`
+    loop) followed by the per-group loop; `groupHeads` does not change the state, every group consists of input heads whose flow
+    instances all carry the interaction loop the group is keyed by, and every input head is in a group.  Hence two heads of
+    different interaction loops are never in one group (they never compete), whatever the state and the list of heads. -/
+theorem loops_never_compete_vm (fuel : Nat) (a b : Key) (t : List Key) :
+    (∃ rest : List (String × List Key) → M (List Key),
+        resolveActionConflicts fuel (a :: b :: t) = groupHeads (a :: b :: t) >>= rest) ∧
+    ∀ (s s' : VM) (groups : List (String × List Key)), groupHeads (a :: b :: t) s = .ok groups s' →
+      s' = s ∧
+      (∀ k ∈ a :: b :: t, ∃ lg ∈ groups, k ∈ lg.2) ∧
+      ∀ lg ∈ groups, ∀ k1 ∈ lg.2, ∀ k2 ∈ lg.2, k1 ∈ a :: b :: t ∧ k2 ∈ a :: b :: t ∧
+        ∃ x1 x2, OMap.lookup k1.1 s.r.fx = some x1 ∧ OMap.lookup k2.1 s.r.fx = some x2 ∧
+          x1.loopId = some lg.1 ∧ x2.loopId = some lg.1 := by
+  refine ⟨resolveActionConflicts_groups fuel a b t, fun s s' groups h => ?_⟩
+  obtain ⟨hs, hok⟩ := groupHeads_spec _ s s' groups h
+  refine ⟨hs, hok.complete, fun lg hlg k1 hk1 k2 hk2 => ?_⟩
+  obtain ⟨m1, x1, l1, e1⟩ := hok.sound lg hlg k1 hk1
+  obtain ⟨m2, x2, l2, e2⟩ := hok.sound lg hlg k2 hk2
+  exact ⟨m1, m2, x1, x2, l1, l2, e1, e2⟩
 
 /-! non-vacuity of `Closed G` with something outside `G`: two instances, `G` = {f1}; f1 has no child / scope flows and owns
     its context — f2 is outside. -/
